@@ -2,6 +2,7 @@ package peer
 
 import (
 	"fmt"
+	"os"
 	"regexp"
 	"runtime"
 	"strings"
@@ -73,4 +74,74 @@ func Bubble(c *vt.Ctx, ctrl *sched.Controller, body func()) {
 	})
 	c.Schedule(ctrl.Signature())
 	c.Sites(ctrl.Visits())
+}
+
+// SettleOrStuck is Controller.Settle for scenarios in which the library may block on
+// one of its own mutexes for good (a writer held inside Send keeps the server's or the
+// client's mutex): a goroutine waiting for a mutex is not durably blocked, so
+// synctest.Wait would never return and the case would end at the watchdog, undecided.
+//
+// It polls stop-the-world stack snapshots of the bubble. As soon as every other
+// goroutine of the bubble is blocked, the bubble cannot make progress by itself (its
+// clock does not advance while a goroutine waits for a mutex, and nothing outside
+// touches it): if all of them are durably blocked this is ordinary quiescence and
+// Settle is called; if some wait for a mutex, the mutex's holder is among the blocked
+// ones - a deadlock - and the stacks of the mutex waiters are returned.
+func SettleOrStuck(ctrl interface{ Settle() }) (stuck []string) {
+	confirmations := 0
+	for {
+		for i := 0; i < 200; i++ {
+			runtime.Gosched()
+		}
+		buf := make([]byte, 4<<20)
+		n := runtime.Stack(buf, true)
+		blocks := strings.Split(string(buf[:n]), "\n\n")
+		m := bubbleRE.FindStringSubmatch(firstLine(blocks[0]))
+		if m == nil {
+			panic("SettleOrStuck outside a bubble")
+		}
+		mine := "synctest bubble " + m[1] + "]"
+		allBlocked, mutexWaiters := true, []string(nil)
+		for _, b := range blocks[1:] {
+			h := firstLine(b)
+			if !strings.Contains(h, mine) {
+				// a runnable goroutine is listed without its bubble: anything that is not
+				// waiting for something may be one of ours and may still move
+				idle := false
+				for _, w := range []string{"[chan receive", "[chan send", "[select", "[IO wait", "[GC worker (idle)", "[GC sweep wait", "[GC scavenge wait", "[finalizer wait", "[force gc (idle)", "[sleep", "[semacquire", "[sync.Cond.Wait", "[sync.WaitGroup.Wait", "[cleanup wait", "[trace reader", "[sync.Mutex.Lock", "[sync.RWMutex."} {
+					idle = idle || strings.Contains(h, w)
+				}
+				if !idle {
+					allBlocked = false
+				}
+				continue
+			}
+			if strings.Contains(b, "internal/synctest.Run(") || strings.Contains(b, "synctest.testingSynctestTest(") {
+				continue
+			}
+			switch {
+			case strings.Contains(h, "(durable)"):
+			case strings.Contains(h, "[sync.Mutex.Lock") || strings.Contains(h, "[sync.RWMutex."):
+				mutexWaiters = append(mutexWaiters, b)
+			default: // running, runnable, syscall, a non-durable wait of another kind: may still move
+				allBlocked = false
+			}
+		}
+		if !allBlocked {
+			confirmations = 0
+			continue
+		}
+		if len(mutexWaiters) == 0 {
+			ctrl.Settle()
+			return nil
+		}
+		// a deadlock stays; ask for it three times in a row before believing it
+		if confirmations++; confirmations < 3 {
+			continue
+		}
+		if os.Getenv("VERIF_DEBUG_STUCK") != "" {
+			fmt.Fprintf(os.Stderr, "=== SettleOrStuck snapshot ===\n%s\n=== end ===\n", buf[:n])
+		}
+		return mutexWaiters
+	}
 }
